@@ -44,7 +44,7 @@ func (c11) Mandatory(tier string) []string {
 	return []string{"region:armor-header", "region:hash-header", "region:body", "region:signature-armor", "region:trailer", "edit:substitute", "edit:delete", "edit:insert", "edit:truncate",
 		"outcome:both-reject", "outcome:both-accept-equal", "untampered-accepted", "splice:foreign-before", "splice:foreign-before-blank", "splice:field-inside", "splice:text-before-signature",
 		"splice:text-after-end", "splice:foreign-block-before", "splice:foreign-block-after", "splice:duplicate-signature", "splice:hash-header", "keyring:signer", "keyring:signer+others",
-		"keyring:others", "keyring:empty", "keyring:nil-list", "entry:ParagraphReader", "entry:Decoder", "unsigned:no-signer"}
+		"keyring:others", "keyring:empty", "keyring:nil-list", "entry:ParagraphReader", "entry:Decoder", "sequence:keyring-mutated-between-reads", "unsigned:no-signer"}
 }
 
 type c11Case struct {
@@ -158,6 +158,28 @@ func (p c11) run(c *core.C, cs c11Case) {
 		}
 		if cs.Fault == "none" && res.ok {
 			c.Cover("untampered-accepted")
+		}
+	}
+	// the same keyring VARIABLE, emptied / replaced in place after a successful read:
+	// the second read of the same bytes must be judged against the new content
+	if cs.Fault == "none" && refOK && armored && len(keyring) > 0 {
+		kr := append(openpgp.EntityList{}, keyring...)
+		pr, err := control.NewParagraphReader(bytes.NewReader(cs.Input), &kr)
+		if err == nil && pr.Signer() != nil {
+			others := testKeys(1024)
+			for i := range kr {
+				kr[i] = others[2] // Mallory, never a signer in these cases
+			}
+			if refID != others[2].PrimaryKey.KeyId {
+				if pr2, err2 := control.NewParagraphReader(bytes.NewReader(cs.Input), &kr); err2 == nil {
+					c.Failf("after the keyring variable was overwritten in place with an unrelated key, the same document is still accepted (signer reported: %v)", pr2.Signer() != nil)
+				}
+				kr = kr[:0]
+				if _, err3 := control.NewParagraphReader(bytes.NewReader(cs.Input), &kr); err3 == nil {
+					c.Failf("after the keyring variable was emptied in place, the same document is still accepted")
+				}
+				c.Cover("sequence:keyring-mutated-between-reads")
+			}
 		}
 	}
 	c.Nontrivial()
